@@ -40,6 +40,8 @@ class C20(ProgProp):
                 del spec["faults"]["items"][key]
             for key in [x for x in spec["faults"]["flushes"] if int(x.split("#")[0]) in spec["native_debug_kinds"]]:
                 del spec["faults"]["flushes"][key]
+        if rng.random() < 0.15:
+            spec["faults"].setdefault("ctx", {})["#%d" % rng.randint(1, 4)] = ["resume", rng.randint(2, 3)]
         clock = {"seed": rng.randint(0, 10 ** 6), "mode": rng.choice(["small", "mixed", "huge", "huge"])}
         return {"spec": spec, "options": options, "clock": clock,
                 "dump_interval": rng.choice([0, 1, 1, 3600])}
